@@ -420,10 +420,11 @@ Theorem old_flag_race_read :
   ogoal_race_read (exec (old_sys_of osc_race_read) ow_race_read) = true.
 Proof. vm_compute. reflexivity. Qed.
 
-(* F7: EOF racing with Close strands the goroutine that sends on `done` *)
+(* F7: EOF from the peer racing with Close strands the goroutine that sends on `done`: nobody can
+   move any more, Close has returned, the sender is parked on `c.done <- struct{}{}` *)
 Definition ogoal_stranded (s : state) : bool :=
   quiescent_b (old_sys_of osc_race) s && old_closers_returned osc_race s
-  && Nat.eqb (pc_of s T_SENDER1) 1.
+  && Nat.eqb (pc_of s T_SENDER1) 1 && Nat.eqb (var_of s V_NET) NET_EOF.
 Definition ow_stranded : sched :=
   Eval vm_compute in
     match find (old_sys_of osc_race) ogoal_stranded with Some w => w | None => [] end.
